@@ -606,3 +606,116 @@ package analysis
 //@   ensures result1 == nil && noRef(*opts.Schema) ==> result.IsMap == (objType(*opts.Schema) && hasAP(*opts.Schema) && len(opts.Schema.Properties) == 0 && len(opts.Schema.AllOf) == 0)
 //@   ensures result1 == nil && noRef(*opts.Schema) ==> result.IsExtendedObject == (objType(*opts.Schema) && hasAP(*opts.Schema) && (len(opts.Schema.Properties) > 0 || len(opts.Schema.AllOf) > 0))
 //@   ensures result1 == nil && noRef(*opts.Schema) ==> result.IsEnum == (len(opts.Schema.Enum) > 0)
+
+// ---------------------------------------------------------------- flatten.go: the analyzer stays in sync (C10)
+
+// synced(s): the index maps of s equal the index of the document s.spec. It is an uninterpreted predicate of the
+// document heaps and the index heaps: reload establishes it (its definition, proved as C11-C14), any write to a
+// document or index heap destroys the knowledge.
+//@ fun synced(s *Spec) bool reads heaps DOC, heaps INDEX
+//@ heaps FCTX = context, newRef, map[string]*newRef, []string, FlattenOpts
+
+//@ func (s *Spec) reload()
+//@   assumed
+//@   requires s != nil
+//@   modifies heaps INDEX
+//@   ensures synced(s) && s.spec == old(s.spec)
+
+//@ func importExternalReferences(opts)
+//@   assumed
+//@   modifies heaps DOC, heaps FCTX
+//@   ensures opts.Spec == old(opts.Spec)
+
+//@ func (isn *InlineSchemaNamer) Name(key, schema, aschema)
+//@   assumed
+//@   modifies heaps DOC, heaps FCTX
+
+//@ func stripOAIGenForRef(opts, k, r)
+//@   assumed
+//@   modifies heaps DOC, heaps FCTX
+//@   ensures opts.Spec == old(opts.Spec)
+
+//@ func flattenAnonPointer(key, v, refsToReplace, namer, opts)
+//@   assumed
+//@   modifies heaps DOC, heaps FCTX, heap map[string]SchemaRef
+//@   ensures opts.Spec == old(opts.Spec)
+
+//@ func updateRefParents(allRefs, r)
+//@   assumed
+//@   modifies heaps FCTX
+
+//@ func expand(opts)
+//@   requires opts != nil && opts.Spec != nil && opts.Spec.spec != nil
+//@   modifies heaps DOC, heaps INDEX
+//@   ensures result == nil ==> synced(opts.Spec)
+//@   ensures opts.Spec.spec == old(opts.Spec.spec)
+
+//@ func normalizeRef(opts)
+//@   requires opts != nil && opts.Spec != nil && opts.Spec.spec != nil && synced(opts.Spec)
+//@   modifies heaps DOC, heaps INDEX
+//@   ensures result == nil ==> synced(opts.Spec)
+//@   ensures opts.Spec.spec == old(opts.Spec.spec)
+//@   loop 1: invariant altered || synced(opts.Spec)
+//@   loop 1: invariant opts.Spec.spec == old(opts.Spec.spec)
+
+//@ func removeUnusedShared(opts)
+//@   requires opts != nil && opts.Spec != nil && opts.Spec.spec != nil
+//@   modifies heaps DOC, heaps INDEX
+//@   ensures synced(opts.Spec) && opts.Spec.spec == old(opts.Spec.spec)
+
+//@ func importReferences(opts)
+//@   requires opts != nil && opts.Spec != nil && opts.Spec.spec != nil && synced(opts.Spec)
+//@   modifies heaps DOC, heaps INDEX, heaps FCTX
+//@   ensures result == nil ==> synced(opts.Spec)
+//@   ensures opts.Spec == old(opts.Spec) && opts.Spec.spec == old(opts.Spec.spec)
+//@   loop 1: invariant synced(opts.Spec) && opts != nil && opts.Spec == old(opts.Spec) && opts.Spec.spec == old(opts.Spec.spec)
+
+//@ func nameInlinedSchemas(opts)
+//@   requires opts != nil && opts.Spec != nil && opts.Spec.spec != nil && strfmt.Default != nil
+//@   modifies heaps DOC, heaps INDEX, heaps FCTX
+//@   ensures result == nil ==> synced(opts.Spec)
+//@   ensures opts.Spec == old(opts.Spec) && opts.Spec.spec == old(opts.Spec.spec)
+//@   loop 1: invariant opts != nil && opts.Spec == old(opts.Spec) && opts.Spec.spec == old(opts.Spec.spec) && namer != nil
+
+//@ func namePointers(opts)
+//@   requires opts != nil && opts.Spec != nil && opts.Spec.spec != nil && strfmt.Default != nil
+//@   modifies heaps DOC, heaps INDEX, heaps FCTX
+//@   ensures result == nil ==> synced(opts.Spec)
+//@   ensures opts.Spec == old(opts.Spec) && opts.Spec.spec == old(opts.Spec.spec)
+//@   loop 1: invariant opts != nil && opts.Spec == old(opts.Spec) && opts.Spec.spec == old(opts.Spec.spec) && refsToReplace != nil
+//@   loop 2: invariant opts != nil && opts.Spec == old(opts.Spec) && opts.Spec.spec == old(opts.Spec.spec) && refsToReplace != nil
+
+//@ func stripOAIGen(opts)
+//@   requires opts != nil && opts.Spec != nil && opts.Spec.spec != nil && opts.flattenContext != nil
+//@   modifies heaps DOC, heaps INDEX, heaps FCTX
+//@   ensures result1 == nil ==> synced(opts.Spec)
+//@   ensures opts.Spec == old(opts.Spec) && opts.Spec.spec == old(opts.Spec.spec) && opts.flattenContext == old(opts.flattenContext)
+//@   loop 1: invariant opts != nil && opts.Spec == old(opts.Spec) && opts.Spec.spec == old(opts.Spec.spec) && opts.flattenContext == old(opts.flattenContext)
+//@   loop 2: invariant opts != nil && opts.Spec == old(opts.Spec) && opts.Spec.spec == old(opts.Spec.spec) && opts.flattenContext == old(opts.flattenContext)
+
+//@ func stripPointersAndOAIGen(opts)
+//@   requires opts != nil && opts.Spec != nil && opts.Spec.spec != nil && opts.flattenContext != nil && strfmt.Default != nil
+//@   modifies heaps DOC, heaps INDEX, heaps FCTX
+//@   ensures result == nil ==> synced(opts.Spec)
+//@   ensures opts.Spec == old(opts.Spec) && opts.Spec.spec == old(opts.Spec.spec)
+//@   loop 1: invariant synced(opts.Spec) && opts != nil && opts.Spec == old(opts.Spec) && opts.Spec.spec == old(opts.Spec.spec) && opts.flattenContext == old(opts.flattenContext)
+
+//@ func removeUnusedSinglePass(opts)
+//@   requires opts != nil && opts.Spec != nil && opts.Spec.spec != nil
+//@   modifies heaps DOC, heaps INDEX
+//@   ensures synced(opts.Spec) && opts.Spec.spec == old(opts.Spec.spec)
+
+//@ func removeUnused(opts)
+//@   requires opts != nil && opts.Spec != nil && opts.Spec.spec != nil && synced(opts.Spec)
+//@   modifies heaps DOC, heaps INDEX
+//@   ensures synced(opts.Spec) && opts.Spec.spec == old(opts.Spec.spec)
+//@   loop 1: invariant synced(opts.Spec) && opts.Spec.spec == old(opts.Spec.spec)
+
+//@ func (f *FlattenOpts) croak()
+//@   requires f != nil && f.Spec != nil && f.flattenContext != nil
+//@   modifies nothing
+
+//@ func Flatten(opts)
+//@   requires opts.Spec != nil && opts.Spec.spec != nil && strfmt.Default != nil
+//@   modifies heaps DOC, heaps INDEX, heaps FCTX
+//@   ensures result == nil ==> synced(opts.Spec)
